@@ -13,7 +13,7 @@ from vlib.stubs import Obj
 
 MAXS = P.get("maxs", 2)
 UE = P.get("unicode_escape", False)
-SIGMA = ["a", "/", "~", "0", "1", "+", "-", "#", "_", " ", "é", "١", "\U0001F600", "\x01", "2", "'", '"', "１", "\t"][: P.get("sigma", 19)]
+SIGMA = ["a", "/", "~", "0", "1", "+", "-", "#", "_", " ", "é", "²", "١", "\U0001F600", "\x01", "2", "'", '"', "１", "\t"][: P.get("sigma", 20)]
 SHAPE = P.get("shape", 0)
 SENTINEL = ["default"]
 TARGET = P.get("target")
@@ -21,6 +21,10 @@ TARGET = P.get("target")
 
 def _doc_with_obj(t: str, v: Any, shape: int) -> Any:
     """As _doc_with, objects being pure-Python Mappings so that a symbolic name is never hashed."""
+    if shape == 4:
+        return Obj([("#" + t, 0), (t, v), ("~" + t, 1)]), [t]
+    if shape == 5:
+        return Obj([(t, 0), ("#" + t, v), ("~" + t, 1)]), ["#" + t]
     if shape == 0:
         return Obj([("zz", 0), (t, v)]), [t]
     if shape == 1:
@@ -32,6 +36,12 @@ def _doc_with_obj(t: str, v: Any, shape: int) -> Any:
 
 def _doc_with(tokens: List[str], v: Any, shape: int) -> Any:
     """A document in which the node reached by `tokens` (one or two member names) is v."""
+    if shape == 4:  # look-alike siblings spelled with the extension prefixes
+        return {"#" + tokens[0]: 0, tokens[0]: v, "~" + tokens[0]: 1}, [tokens[0]]
+    if shape == 5:  # the target's own name starts with an extension prefix and the plain name exists too
+        return {tokens[0]: 0, "#" + tokens[0]: v, "~" + tokens[0]: 1}, ["#" + tokens[0]]
+    if shape == 6:
+        return {tokens[0]: 0, "#" + tokens[0]: 1, "~" + tokens[0]: v}, ["~" + tokens[0]]
     if shape == 0:
         return {"zz": 0, tokens[0]: v}, [tokens[0]]
     if shape == 1:
@@ -51,7 +61,7 @@ def reach_text(t: str, v: Leaf, shape: int) -> bool:
     """Every node is reachable: member name t symbolic, pointer spelled per RFC 6901, escape decoding off.
 
     pre: len(t) <= MAXS
-    pre: 0 <= shape <= 3
+    pre: 0 <= shape <= 5
     pre: small(v)
     post: _
     """
@@ -79,7 +89,7 @@ def reach_sigma(i: int, j: int, k: int, n: int, v: int, shape: int) -> bool:
 
     pre: 0 <= i < len(SIGMA) and 0 <= j < len(SIGMA) and 0 <= k < len(SIGMA)
     pre: 0 <= n <= MAXS
-    pre: 0 <= shape <= 3
+    pre: 0 <= shape <= 6
     post: _
     """
     t = _sig(i, j, k, n)
